@@ -290,6 +290,16 @@ func (e *Engine) Verify(fn *ssa.Function, ct *Contract, props []string, opt Opti
 			vc.lets[l.Name] = v
 			env.vars[l.Name] = v
 		}
+		// lemmas are closed statements over the spec functions of this contract: they are proved
+		// in the entry state before any precondition is assumed, so they hold for every call
+		for _, cl := range ct.Lemmas {
+			t, err := env.EvalBool(cl.E)
+			if err != nil {
+				vc.unprovable(fmt.Sprintf("lemma[%s]", cl.Label), vc.clauseProps(ct, cl), vc.posOf(fn.Pos()), err)
+				continue
+			}
+			vc.oblige(st, fmt.Sprintf("lemma[%s]", cl.Label), t, vc.clauseProps(ct, cl), vc.posOf(fn.Pos()))
+		}
 		for _, cl := range ct.Requires {
 			t, err := env.EvalBool(cl.E)
 			if err != nil {
